@@ -355,3 +355,9 @@ ROUND6 = {
 for _k, _v in ROUND6.items():
     if _k in CLAIMS:
         CLAIMS[_k]['text'] += '  Round 6: ' + _v
+
+# the deciding method of the checks that rounds 4-6 built on rules/ordint.py
+_BOUNDED = ' + bounded exhaustive interpretation of the exported CFGs (rules/ordint.py: order types / object graphs where the code only compares, concrete class representatives where it computes) on all inputs up to a small stated size'
+for _k in ('C01', 'C02', 'C03', 'C04', 'C05', 'C06', 'C08', 'C10', 'C11', 'C12', 'C13', 'C14', 'C16', 'C18', 'C19', 'C20'):
+    if _k in CLAIMS and 'rules/ordint.py' not in CLAIMS[_k]['technique']:
+        CLAIMS[_k]['technique'] += _BOUNDED
